@@ -93,6 +93,14 @@ def parse_fn_block(lines, i, end_marker='end'):
                 o = parse_opts(words[2:])
                 cur = []
                 blk.loops[n] = (o.get('iter'), cur)
+            elif words[0] == 'r5':
+                kind = words[1]
+                occ = 1
+                for w in words[2:]:
+                    if w.startswith('#'):
+                        occ = int(w[1:])
+                blk.rewrites.append(('R5:' + kind, None, None, occ))
+                cur = None
             elif words[0] in ('loop-start', 'loop-end'):
                 cur = []
                 blk.anchors.append((words[0], '', int(words[1]), cur))
@@ -396,6 +404,85 @@ def find_loops(body):
     return res
 
 
+CHAIN_STOP_IDENTS = {'if', 'else', 'return', 'match', 'let', 'in', 'while', 'for', 'loop', 'mut', 'as', 'break'}
+
+
+def r5_expand(body, kind, occ, qual_name):
+    """R5: definitional expansion of a slice/str iterator adapter with a closure:
+    E.map(|P| B).collect() / E.all(|P| B) / E.any(|P| B) -> the explicit loop.
+    P and B are copied from the source text."""
+    toks = lex(body)
+    s = sig(toks)
+    meth = {'map-collect': 'map', 'all': 'all', 'any': 'any'}[kind]
+    hits = []
+    for pos in range(len(s) - 3):
+        if toks[s[pos]].text == '.' and toks[s[pos + 1]].kind == 'ident' and toks[s[pos + 1]].text == meth and toks[s[pos + 2]].text == '(' and toks[s[pos + 3]].text == '|':
+            hits.append(pos)
+    if len(hits) < occ:
+        raise Drift('%s: R5 %s #%d: adapter call not found' % (qual_name, kind, occ))
+    pos = hits[occ - 1]
+    open_paren = s[pos + 2]
+    close_paren = match_close(toks, open_paren)
+    # closure: | P | B
+    q = pos + 4
+    pat_start = toks[s[q]].start
+    while toks[s[q]].text != '|':
+        q += 1
+    pat_end = toks[s[q - 1]].end
+    b_start = toks[s[q + 1]].start
+    # last significant token before close paren
+    last = max(k for k in s if k < close_paren)
+    b_end = toks[last].end
+    pat = body[pat_start:pat_end]
+    cbody = body[b_start:b_end]
+    end = toks[close_paren].end
+    if kind == 'map-collect':
+        # expect .collect()
+        after = [k for k in s if k > close_paren][:4]
+        texts = [toks[k].text for k in after]
+        if texts[:4] != ['.', 'collect', '(', ')']:
+            raise Drift('%s: R5 map-collect: .collect() does not follow .map(..)' % qual_name)
+        end = toks[after[3]].end
+    # receiver: walk back over the postfix chain
+    r = pos - 1
+    while r >= 0:
+        t = toks[s[r]]
+        if t.kind == 'punct' and t.text in (')', ']'):
+            # jump to matching open
+            depth = 0
+            k = s[r]
+            while k >= 0:
+                tt = toks[k]
+                if tt.kind == 'punct' and tt.text in rsitems.CLOSE:
+                    depth += 1
+                elif tt.kind == 'punct' and tt.text in rsitems.OPEN:
+                    depth -= 1
+                    if depth == 0:
+                        break
+                k -= 1
+            r = s.index(k) - 1
+            continue
+        if t.kind == 'ident' and t.text not in CHAIN_STOP_IDENTS:
+            r -= 1
+            continue
+        if t.kind in ('num', 'lifetime'):
+            r -= 1
+            continue
+        if t.kind == 'punct' and t.text in ('.', ':', '&'):
+            r -= 1
+            continue
+        break
+    recv_start = toks[s[r + 1]].start
+    recv = body[recv_start:toks[s[pos]].start].strip()
+    if kind == 'map-collect':
+        new = '{ let mut vx_v = Vec::new(); for %s in %s { vx_v.push(%s); } vx_v }' % (pat, recv, cbody)
+    elif kind == 'all':
+        new = '{ let mut vx_all = true; for %s in %s { if vx_all && !(%s) { vx_all = false; } } vx_all }' % (pat, recv, cbody)
+    else:
+        new = '{ let mut vx_any = false; for %s in %s { if !vx_any && (%s) { vx_any = true; } } vx_any }' % (pat, recv, cbody)
+    return body[:recv_start] + new + body[end:]
+
+
 def apply_ref_patterns(body, counts):
     """R4: `for &x in E {` -> `for x__r in E { let x = *x__r;`"""
     changed = True
@@ -502,7 +589,7 @@ def annotate_fn(sf, item, blk, counts, meta, mode, qual_name, extra_ensures=None
 
     if mode == 'stub' or blk.opts.get('assumed'):
         for rule, old, new, cnt in blk.rewrites:
-            if sig_text.count(old):
+            if old is not None and sig_text.count(old):
                 sig_text = sig_text.replace(old, new)
         if blk.opts.get('assumed'):
             fmeta['mode'] = 'assumed'
@@ -538,6 +625,10 @@ def annotate_fn(sf, item, blk, counts, meta, mode, qual_name, extra_ensures=None
 
     # rewrites
     for rule, old, new, cnt in blk.rewrites:
+        if rule.startswith('R5:'):
+            body = r5_expand(body, rule[3:], cnt, qual_name)
+            counts.bump('R5')
+            continue
         n = body.count(old) + sig_text.count(old)
         if n != cnt:
             raise Drift('%s: rewrite %s expects %d match(es) of %r, found %d' % (qual_name, rule, cnt, old, n))
@@ -690,6 +781,7 @@ def assemble(unit, mode='verify', vacuity=False, seen=None, top=True, only_props
         lines = f.read().split('\n')
     out = []
     deferred = []
+    vac_counter = [0]
     i = 0
     while i < len(lines):
         ln = lines[i]
@@ -765,13 +857,39 @@ def assemble(unit, mode='verify', vacuity=False, seen=None, top=True, only_props
             out.append(txt)
             if vacuity and mode == 'verify' and not blk.opts.get('assumed') and not blk.opts.get('novac'):
                 junk = []
-                vt = annotate_fn(sf, item, blk, Counter(), junk, 'verify', qual, extra_ensures='false', rename=item.name + '__vac')
+                vac_counter[0] += 1
+                vname = item.name + '__vac' + (str(vac_counter[0]) if blk.opts.get('traitfn') else '')
+                vt = annotate_fn(sf, item, blk, Counter(), junk, 'verify', qual, extra_ensures='false', rename=vname)
                 if blk.opts.get('traitfn'):
                     # a clone cannot live in the trait impl: defer it to an inherent impl
                     segs = rsitems.split_path(fpath)
                     im = sf.find(segs[0])
-                    mh = re.match(r'impl\s*(<[^>]*>)?\s*.*?\s+for\s+(.*)$', re.sub(r'\s+', ' ', im.name))
-                    deferred.append('impl%s %s {\n%s\n}' % (mh.group(1) or '', mh.group(2), vt))
+                    mh = re.match(r'impl\s*(<.*?>)?\s*[A-Za-z_:]+(<.*>)?\s+for\s+(.*)$', re.sub(r'\s+', ' ', im.name))
+                    gens = mh.group(1) or ''
+                    selfty = mh.group(3)
+                    keep, move = [], []
+                    if gens:
+                        depth = 0
+                        cur = ''
+                        parts = []
+                        for ch in gens[1:-1]:
+                            if ch in '<([':
+                                depth += 1
+                            elif ch in '>)]':
+                                depth -= 1
+                            if ch == ',' and depth == 0:
+                                parts.append(cur.strip())
+                                cur = ''
+                            else:
+                                cur += ch
+                        if cur.strip():
+                            parts.append(cur.strip())
+                        for prm in parts:
+                            nm = re.sub(r"^const\s+", '', prm).split(':')[0].strip()
+                            (keep if re.search(r"(?<![A-Za-z0-9_'])%s(?![A-Za-z0-9_])" % re.escape(nm), selfty) else move).append(prm)
+                    if move:
+                        vt = re.sub(r'\bfn\s+%s\b' % re.escape(vname), 'fn %s<%s>' % (vname, ', '.join(move)), vt, count=1)
+                    deferred.append('impl%s %s {\n%s\n}' % (('<' + ', '.join(keep) + '>') if keep else '', selfty, vt))
                 else:
                     out.append(vt)
         elif d == 'unit-only':
